@@ -145,6 +145,9 @@ class TextFileStorage(Storage[str]):
 
         Make sure that you have closed this storage (in all processes) before calling this method.
         """
+        # handles of this process point to the files that are going to be removed
+        self.close()
+
         with self._storage_lock:
             for f in self._file_paths:
                 if f is not None:
@@ -154,6 +157,9 @@ class TextFileStorage(Storage[str]):
             self._index[:] = []
             self._stored_cnt.value = 0
             self._waiting_for.value = 0
+
+        # initial state also for this process: a new file (and identifier) is assigned on the next store
+        self._process_identifier = None
 
     def is_contiguous(self) -> bool:
         """
